@@ -45,6 +45,11 @@ def check(run, prog, tier):
     run.trusted += ["asyncio ready queue is FIFO", "datagrams that are delivered are processed by datagram_received"]
     run.not_decided += ["the convergence-time bound (one TTL plus one cyclic period) and behaviour under loss / duplication / reordering windows"]
     cx = Ctx(run, prog)
+    # S12: the subscribe rounds and the offered-service lookup answer from the current sets: a memo derived from the requested
+    # set (or from the found services) is reset on every path that changes its source (seeded r13-C04: grouping cached,
+    # reset only while alive - an eventgroup requested while stopped is never subscribed after the restart)
+    from .derived import cache_coherence
+    cache_coherence(run, prog, "S12", [SUBS, "sd.ServiceDiscover"])
 
     def reach(qual, recv, label, pred, msg, rule="S1"):
         fi = prog.func(qual)
